@@ -93,6 +93,14 @@ func genC11Case(t *rapid.T) C11Case {
 	spec.SPs[1].AuthnRequestsSigned = A
 	spec.Requests = []world.RequestSpec{{ID: "c11-done", AppID: "app-0", RelayState: "rs", ACS: "https://sp0.example/acs/post", Binding: world.BindPost, AuthRequestID: "_c11", UserID: "uid-0", Done: true}}
 	spec.KeysPerIssuer = rapid.IntRange(0, 2).Draw(t, "keysperissuer") == 0
+	switch rapid.IntRange(0, 5).Draw(t, "interceptors") {
+	case 0:
+		spec.IdP.InterceptorNeutral = true
+	case 1:
+		// the application resolves the tenant itself and puts its issuer into the context of every request
+		spec.IdP.InterceptorIssuer = rapid.SampledFrom([]string{"https://tenant-from-interceptor.example/saml", "https://tenant-from-interceptor.example"}).Draw(t, "interceptorissuer")
+		spec.IdP.InterceptorNeutral = rapid.Bool().Draw(t, "interceptorboth")
+	}
 	c := C11Case{Spec: spec, Host: rapid.SampledFrom(append(reqHosts, "UPPER.Example", "idp.example.", "localhost:8080", "xn--bcher-kva.idp.example", "idp--staging.example:8443", "a--b--c.example")).Draw(t, "host")}
 	c.Rotate = rapid.IntRange(0, 2).Draw(t, "rotate") == 0
 	if idp.IssuerMode == "forwarded" && rapid.Bool().Draw(t, "fwd") {
